@@ -24,3 +24,11 @@ def check(run, only=None):
         o2 = fw.merge_worker_results(results, "")
         o2["rule"] = None
         run.add_bounded(o2)
+    if only in (None, "P"):
+        from vlib.props import pcommon
+        from vlib.companions import parserfuncs as pf
+        import contracts.actions as ca
+        pcommon.add_proof(run, "C09", ca.ACTIONS_C13, [pf.run_actions],
+                          "the built-in collecting actions never modify a sub-result they are handed (frame "
+                          "obligations: empty modifies set, results are fresh lists), which is what makes their result "
+                          "independent of how often and in which order GLR / call_actions invokes them on shared sub-results")
